@@ -29,9 +29,19 @@ METAS_OK = ["#enter", "#exit", "#value", "#error", "#yield", "#receive"]
 METAS_BAD = ["#foo", "#Enter", "#values", "#valuex", "#enter2", "#exit_", "#err", "#yield1", "#receiver"]
 
 
+def program_sets(tier):
+    from pv.props.c02 import BIND_CTL
+
+    extra = frozenset({"try-except-noname", "try-except-else", "with-noas", "raise-base", "global-read", "shadowed-builtin"})
+    return [("gen", dict()), ("ctl", dict(size=C.SIZE[tier] + 1, only=BIND_CTL | extra, key=("c10ctl", tier)))]
+
+
 def units(tier):
-    n = C.count_programs(tier)
-    return [("progs", lo, min(n, lo + CHUNK)) for lo in range(0, n, CHUNK)] + [("targets",)]
+    out = [("targets",)]
+    for name, kw in program_sets(tier):
+        n = C.count_programs(tier, **kw)
+        out += [(name, lo, min(n, lo + CHUNK)) for lo in range(0, n, CHUNK)]
+    return out
 
 
 def expected_for(name, info, src_words):
@@ -243,8 +253,9 @@ def work(unit, tier):
     if unit[0] == "targets":
         check_targets(part)
         return part
-    _, lo, hi = unit
-    for prog in C.programs_slice(tier, lo, hi):
+    name, lo, hi = unit
+    kw = dict(program_sets(tier))[name]
+    for prog in C.programs_slice(tier, lo, hi, **kw):
         check_program(prog, tier, part)
     return part
 
